@@ -490,6 +490,11 @@ func (m *Monitors) onInvoke(inv Invocation) {
 		if isStopped(prs) {
 			m.violate("C08", "no-invocation-while-stopped", inv.Kind+"-invoked-on-stopped-run in "+m.pathName(),
 				fmt.Sprintf("%s function of status %d invoked for run r%d whose persisted run state is %d (%s)", inv.Kind, inv.Status, inv.Run, prs, m.pathName()))
+			if inv.Kind == "timeout" {
+				// C12: "... and the run is still at that status and neither stopped nor finished"
+				m.violate("C12", "fires-only-while-waiting", "timeout-invoked-on-stopped-run in "+m.pathName(),
+					fmt.Sprintf("timeout function of status %d invoked for run r%d whose persisted run state is %d (%s)", inv.Status, inv.Run, prs, m.pathName()))
+			}
 		}
 		m.NonTrivial[fmt.Sprintf("invoke:%s:rs%d", inv.Kind, prs)] = true
 	}
@@ -804,6 +809,11 @@ func sendKey(topic string, fid string, typ int, h map[workflow.Header]string) st
 
 func (m *Monitors) onSend(topic string, e *workflow.Event) {
 	w := m.w
+	// C06: the sender an event goes through was opened on the topic the record calls for (a streamer that publishes on the
+	// sender's topic, as Kafka does, delivers it to the consumers of that topic)
+	if ht := e.Headers[workflow.HeaderTopic]; ht != topic {
+		m.violate("C06", "sent-on-its-topic", "sent-on-other-topic", fmt.Sprintf("event for run %s with topic header %q was sent through a sender opened on topic %q", e.ForeignID, ht, topic))
+	}
 	// nothing is published that was not written: the event must describe a pending outbox entry
 	key := sendKey(topic, e.ForeignID, e.Type, e.Headers)
 	found := -1
@@ -1068,6 +1078,16 @@ func (m *Monitors) afterCtl(run int, op string, err error, versionsBefore int, s
 	if err != nil && wrote != 0 && len(w.env.Faults) == 0 {
 		m.violate("C03", "rejected-without-write", "ctl-rejected-but-wrote", fmt.Sprintf("%s on run r%d returned %v but stored %d records", op, run, err, wrote))
 	}
+	if err == nil && wrote == 0 && len(w.env.Faults) == 0 {
+		props := []string{"C03"}
+		if strings.Contains(op, "delete") {
+			props = append(props, "C15") // "a repeated request ... is accepted and executed again"
+		}
+		for _, prop := range props {
+			m.violate(prop, "accepted-means-written", "ctl-accepted-but-nothing-stored:"+op+m.afterFlag(),
+				fmt.Sprintf("%s on run r%d returned nil but stored nothing: the caller was told the request was accepted, nothing announces it", op, run))
+		}
+	}
 	m.NonTrivial[fmt.Sprintf("ctl:%s:%v:%v", op, err == nil, stale)] = true
 }
 
@@ -1136,7 +1156,11 @@ func (m *Monitors) atQuiescence(s *Sim) {
 			}
 		}
 		if !acted {
-			for _, prop := range []string{"C04", "C01"} {
+			props := []string{"C04", "C01"}
+			if len(rr.versions) >= 2 && int(rr.versions[len(rr.versions)-2].RunState) == 3 {
+				props = append(props, "C08") // "... resume re-announces the run at its current status"
+			}
+			for _, prop := range props {
 				m.violate(prop, "current-announcement-acted-on", "newest-announcement-never-handled"+m.afterFlag(),
 					fmt.Sprintf("run r%d rests at status %d (run state %d, version %d) which has a step, every process is idle, nothing is due and the outbox is empty - but the step function was never handed version %d: the announcement of the run's newest write was dropped",
 						rr.ord, last.Status, int(last.RunState), last.Meta.Version, last.Meta.Version))
